@@ -604,7 +604,7 @@ caf_write_header (SF_PRIVATE *psf, int calc_length)
 		if (psf->dataend)
 			psf->datalength -= psf->filelength - psf->dataend ;
 
-		if (psf->bytewidth > 0)
+		if (psf->bytewidth > 0 && psf->sf.channels > 0)
 			psf->sf.frames = psf->datalength / (psf->bytewidth * psf->sf.channels) ;
 		} ;
 
